@@ -762,7 +762,86 @@ func runC07(w *World, r *Report) {
 	}
 
 	shareRule(w, r, "C07.keyed-helper-sides", "the helper of a node with an output key replaces the output-side slots (converter, pair, zero value) by the map's: a pass-through typed from it checks interface-typed edges against map[string]any, not against the inner output type", 4, "C04", "C04.in-out-wiring")
+	shareRule(w, r, "C07.keyed-stream-mismatch-is-an-error", "the stream half of WithInputKey skips a chunk only when the key is missing: a value of the wrong type under the key is the same ordinary type error Invoke reports, not a silently shorter input", 1, "C04", "C04.key-filter-miss-only")
 
+	r.Rule("C07.inference-through-side-accessors", "every place where the graph infers the type of a pass-through node (a store to a node's runnable input type through g.nodes) stands under 'the type seen from the side the inference comes through is still unknown', asked of the side accessor (getNodeInputType / getNodeOutputType, graphNode.inputType / outputType) — which answers map[string]any for a keyed side — never of the raw field: the keyed side of a node is not the value that goes through it", 2)
+	{
+		fNodes := w.Field("compose", "graph", "nodes")
+		fCr := w.Field("compose", "graphNode", "cr")
+		fIn := w.Field("compose", "composableRunnable", "inputType")
+		accessors := map[*ssa.Function]bool{}
+		for _, nm := range []string{"graph.getNodeInputType", "graph.getNodeOutputType", "graphNode.inputType", "graphNode.outputType"} {
+			accessors[w.Fn("compose", nm)] = true
+		}
+		throughNodes := func(v ssa.Value) bool {
+			u, ok := v.(*ssa.UnOp)
+			if !ok || u.Op != token.MUL {
+				return false
+			}
+			fa, ok := u.X.(*ssa.FieldAddr)
+			if !ok || !sameField(fieldVarOfAddr(fa), fCr) {
+				return false
+			}
+			x := fa.X
+			if e, ok := x.(*ssa.Extract); ok {
+				x = e.Tuple
+			}
+			lk, ok := x.(*ssa.Lookup)
+			return ok && isLoadOfField(lk.X, fNodes)
+		}
+		var fromAccessor func(v ssa.Value, d int) bool
+		fromAccessor = func(v ssa.Value, d int) bool {
+			if d > 6 {
+				return false
+			}
+			switch x := v.(type) {
+			case *ssa.Call:
+				sc := staticCallee(x)
+				return sc != nil && accessors[sc]
+			case *ssa.Phi:
+				// a variable declared outside a loop and assigned from the accessor inside it: some edge is the call
+				for _, e := range x.Edges {
+					if fromAccessor(e, d+1) {
+						return true
+					}
+				}
+			case *ssa.UnOp:
+				if a, ok := x.X.(*ssa.Alloc); ok && x.Op == token.MUL {
+					for _, st := range storesToCell(a.Parent(), a) {
+						if fromAccessor(st.Val, d+1) {
+							return true
+						}
+					}
+				}
+			}
+			return false
+		}
+		n := 0
+		for _, fn := range w.RepoFuncs("compose") {
+			for _, fw := range fieldWrites(fn) {
+				if !sameField(fw.field, fIn) || !throughNodes(fw.base) {
+					continue
+				}
+				n++
+				asked := false
+				for d := fw.in.Block(); d != nil && !asked; d = d.Idom() {
+					gs := compoundEntryGuards(d)
+					if d == fw.in.Block() {
+						gs = append(gs, guardsOf(d)...)
+					}
+					for _, g := range gs {
+						if guardIsNil(g, func(v ssa.Value) bool { return fromAccessor(v, 0) }) {
+							asked = true
+						}
+					}
+				}
+				r.Check(asked, "C07.inference-through-side-accessors", fmt.Sprintf("%s: inference #%d of a node's input type", w.fname(fn), n), fw.in.Pos(), "under <side accessor>(node) == nil", "the inference tests the raw field (or nothing) instead of the side accessor: a pass-through node with WithOutputKey that gets its branch before its incoming edge is typed map[string]any INSIDE from the branch condition's input — which reads the node's keyed output, not the value that goes through it — so x(any) -> p(WithOutputKey) -> branch(cond[map[string]any]) compiles and every run fails 'runtime type check fail, expected type: map[string]interface {}, actual type: string' for an assignable value (behind a concretely typed predecessor the valid graph is refused), in the branch-first order only; a Workflow always attaches branches first")
+			}
+		}
+		if n < 2 {
+			undecidedf("C07.inference-through-side-accessors: only %d inference stores found", n)
+		}
+	}
 	r.Rule("C07.getters-pure", "no get… / is… / input… / output… method of the builder types (graph, graphNode, composableRunnable, genericHelper, Chain, Workflow) stores into its receiver: what they answer follows later type inference", 5)
 	{
 		n := 0
